@@ -159,3 +159,10 @@ def client_loops(h):
     h.ensures("aggregate_results_carry_their_own_estimates_and_levels", all(c[1][2] == ("est", aggs[c[1][1]], c[1][0]) and dict(c[1][3]) == {al: ("api", aggs[c[1][1]], al, c[1][0]) for al in levels} for c in ap), why=str([c[1][2:] for c in ap][:1]), replay=rp)
     cu = self.attrs["all_conformalization_data_unit_dict"]
     h.ensures("calibration_data_kept_per_level_and_estimand", all(set(cu[al]) == set(estimands) for al in levels))
+
+# the column schema and "values of one request do not depend on the others" at the unit table: the ModelResultsHandler unit
+from pyvc.api import UNITS as _UNITS  # noqa: E402
+
+for _u in list(_UNITS.get("C01", [])):
+    if _u["name"] == "model_results.unit_table" and not any(x["name"] == "model_results.unit_table" for x in _UNITS.get("C13", [])):
+        _UNITS.setdefault("C13", []).append(dict(_u, prop="C13"))
